@@ -2,6 +2,7 @@
 src/types.rs: SourceMap::names, NameIter::next): which key carries which value (C03, C01, C13, C07)"""
 import re
 from vx.rs import LostAnchor
+from .lift import map_collect_to_loop
 from .common import emit_struct, emit_method, import_method, emit_error_enum, guarded, inspect_to_if, emit_free_fn
 from .u6_root import prelude_types
 from .u9_dispatch import emit_json_struct
@@ -17,6 +18,8 @@ MUTANTS = [
     ('encoder::SourceMap::as_raw_sourcemap', r'self\.sources\.iter\(\)', 'self.sources_prefixed.as_ref().unwrap_or(&self.sources).iter()'),
     ('encoder::SourceMap::as_raw_sourcemap', r'if have_contents \{ Some\(contents\) \} else \{ None \}', 'Some(contents)'),
     ('encoder::SourceMap::as_raw_sourcemap', r'debug_id: self\.get_debug_id\(\),', 'debug_id: None,'),
+    ('encoder::SourceMap::as_raw_sourcemap', r'have_contents = true;', ''),
+    ('encoder::SourceMap::as_raw_sourcemap', r'Some\(contents\.to_string\(\)\)', 'Some(String::new())'),
     ('encoder::SourceMap::as_raw_sourcemap', r'if verif_btreeset_is_empty\(&self\.ignore_list\) \{', 'if false {'),
     ('encoder::SourceMapIndex::as_raw_sourcemap', r'line: section\.get_offset_line\(\),', 'line: section.get_offset_col(),'),
     ('encoder::SourceMapIndex::as_raw_sourcemap', r'url: verif_opt_str_to_owned\(section\.get_url\(\)\),', 'url: None,'),
@@ -76,10 +79,9 @@ def build(u):
 
     def prep_sm(f):
         u.count('R-trait-inherent')
-        # the one closure that captures a mutable local (outside the Verus subset): the whole chain goes behind an assumed contract (prelude/shim_encode.rs)
-        n = f.rewrite(r'(?s)let contents = self\s*\.source_contents\(\)\s*\.map\(\|contents\| \{.*?\}\)\s*\.collect\(\);', 'let contents = verif_collect_contents(self, &mut have_contents);', expect=1)
-        if n != 1 or 'source_contents()' in f.text:
-            raise LostAnchor('as_raw_sourcemap: the contents chain has another shape')
+        # the one closure that captures a mutable local (`have_contents = true` inside): map + collect as the loop of pushes, the closure body a plain block
+        map_collect_to_loop(f, u, expect=1, recv=r'self\s*\.source_contents\(\)', types=['Vec<Option<String>>'])
+        n = 0
         n += f.rewrite(r'self\.ignore_list\.is_empty\(\)', 'verif_btreeset_is_empty(&self.ignore_list)', expect=1)
         n += f.rewrite(r'self\.ignore_list\.iter\(\)\.cloned\(\)\.collect\(\)', 'verif_btreeset_to_vec(&self.ignore_list)', expect=1)
         n += f.rewrite(r'\|x\| Some\(x\.to_string\(\)\)', '|x| Some(verif_arc_to_string(x))', expect=1)
